@@ -22,7 +22,7 @@ from lerax.wrapper.utils import rescale_box
 
 from lvc import kit, ir, extract, opaque
 from lvc.extract import run, sym
-from lvc.generic import GenericEnv, GState
+from lvc.generic import GenericEnv, GenericInnerEnv, GState
 from lvc.kit import Ctx, sand
 
 PROPERTY = "C13"
@@ -38,11 +38,11 @@ f32 = jnp.float32
 
 
 def inner_env():
-    return GenericEnv(Box(jnp.array([-1.0, -2.0]), jnp.array([1.0, 3.0])), observation_space=Box(jnp.array([-2.0, 0.0]), jnp.array([2.0, 5.0])))
+    return GenericInnerEnv(Box(jnp.array([-1.0, -2.0]), jnp.array([1.0, 3.0])), observation_space=Box(jnp.array([-2.0, 0.0]), jnp.array([2.0, 5.0])))
 
 
 def inner_discrete():
-    return GenericEnv(Discrete(3), masked=True)
+    return GenericInnerEnv(Discrete(3), masked=True)
 
 
 WRAPPERS = {
@@ -89,6 +89,26 @@ def unit_constructible(S):
                 return dict(reproduced=True, route="R1", inputs=dict(wrapper=name, inner="generic environment with Box action/observation spaces"),
                             observed=f"{type(e).__name__}: {e}")
         S.fact(f"constructible/{name}", ok, function=fn, what=f"{name} can be constructed", detail=msg, replay=replay)
+
+
+def _space_replay(cls, which):
+    """R1: the wrapper placed OUTSIDE a space-changing wrapper over a real environment: the advertised space must be the inner wrapper's."""
+    def replay(model):
+        from lerax.env.classic_control import Pendulum
+        base = Pendulum()
+        mid = W.TransformObservation(base, lambda o: o[:2] * 10.0 + 20.0, Box(jnp.array([10.0, 10.0]), jnp.array([30.0, 30.0]))) if which == "observation_space" else \
+            W.TransformAction(base, lambda a: a[0:1] * 2.0, Box(-jnp.ones((3,)), jnp.ones((3,))))
+        build = {"Identity": lambda e: W.Identity(e), "TimeLimit": lambda e: W.TimeLimit(e, 5), "TransformReward": lambda e: W.TransformReward(e, lambda r: r), "ClipReward": lambda e: W.ClipReward(e, -1.0, 1.0),
+                 "TransformAction": lambda e: W.TransformAction(e, lambda a: a, e.action_space), "ClipAction": lambda e: W.ClipAction(e), "RescaleAction": lambda e: W.RescaleAction(e),
+                 "TransformObservation": lambda e: W.TransformObservation(e, lambda o: o, e.observation_space), "ClipObservation": lambda e: W.ClipObservation(e),
+                 "RescaleObservation": lambda e: W.RescaleObservation(e), "FlattenObservation": lambda e: W.FlattenObservation(e)}[cls]
+        outer = build(mid)
+        got, exp = getattr(outer, which), getattr(mid, which)
+        if not (got is exp or got == exp):
+            return dict(reproduced=True, route=f"R1 ({cls} over a space-changing wrapper over Pendulum)", inputs=dict(stack=f"{cls}({type(mid).__name__}(Pendulum))", attribute=which),
+                        observed=dict(advertised=str(got), inner=str(exp), base=str(getattr(base, which))))
+        return dict(reproduced=False, note="advertised space equals the wrapped environment-like object's")
+    return replay
 
 
 def unit_passthrough(name):
@@ -172,6 +192,13 @@ def unit_passthrough(name):
                what="state.unwrapped is the inner-most state")
         # advertised spaces
         inn = E0.env
+        same = lambda a, b: a is b or a == b
+        if cls not in ("TransformObservation", "ClipObservation", "RescaleObservation", "FlattenObservation"):
+            S.fact(f"{name}/observation-space-is-the-inner-one", same(E0.observation_space, inn.observation_space), function=f"lerax.wrapper:{cls}.observation_space", replay=_space_replay(cls, "observation_space"),
+                   what="a wrapper that does not declare an observation change advertises the observation space of the environment-like object it wraps (self.env, not the unwrapped base environment)")
+        if cls not in ("TransformAction", "ClipAction", "RescaleAction"):
+            S.fact(f"{name}/action-space-is-the-inner-one", same(E0.action_space, inn.action_space), function=f"lerax.wrapper:{cls}.action_space", replay=_space_replay(cls, "action_space"),
+                   what="a wrapper that does not declare an action change advertises the action space of the environment-like object it wraps")
         if cls in ("Identity", "TimeLimit", "TransformReward", "ClipReward"):
             S.fact(f"{name}/spaces-pass-through", E0.action_space is inn.action_space and E0.observation_space is inn.observation_space, function=f"lerax.wrapper:{cls}",
                    what="action and observation spaces are the inner ones")
